@@ -24,7 +24,25 @@ type s17 struct {
 	C []byte `json:"c,omitempty"`
 }
 
+// two distinct Go types that print the same name (function-local declarations), with swapped field order
+func twinA() reflect.Type {
+	type twin struct {
+		W int64 `json:"w"`
+		H int64 `json:"h"`
+	}
+	return reflect.TypeOf(twin{})
+}
+
+func twinB() reflect.Type {
+	type twin struct {
+		H int64 `json:"h"`
+		W int64 `json:"w"`
+	}
+	return reflect.TypeOf(twin{})
+}
+
 var types17 = []reflect.Type{
+	twinA(), twinB(),
 	reflect.TypeOf([]byte(nil)), reflect.TypeOf(0), reflect.TypeOf(int8(0)), reflect.TypeOf(uint16(0)),
 	reflect.TypeOf(float64(0)), reflect.TypeOf(""), reflect.TypeOf(false), reflect.TypeOf([]int(nil)),
 	reflect.TypeOf([]string(nil)), reflect.TypeOf([]any(nil)), reflect.TypeOf(map[string]int(nil)),
@@ -45,6 +63,7 @@ func values17() []types.Value {
 		types.NewMap(types.NewString("a"), types.NewInt(1), types.NewString("b"), types.NewString("x")),
 		types.NewMap(types.NewString("a"), types.NewString("zz")), types.NewMap(),
 		types.NewMap(types.NewString("c"), types.NewString("12")), types.NewMap(types.NewString("k"), types.NewBinary([]byte{9})),
+		types.NewMap(types.NewString("w"), types.NewInt(3), types.NewString("h"), types.NewInt(4)),
 	}
 }
 
@@ -184,6 +203,27 @@ func real17(r *rand.Rand, hist map[string]int) (any, string, bool) {
 		o, _ := decodeOnce(fd, typ, vals[vi], &intern17{ids: copyIDs(rids.ids)}, &intern17{ids: copyIDs(errs.ids)})
 		if (o.class != f.class || o.text != f.text) && fail == "" {
 			fail = fmt.Sprintf("decoding value %d into %s gives %s on a cold decoder and %s after other decodes", vi, typ, o.text+" "+o.class, f.text+" "+f.class)
+		}
+	}
+	// one decoder used for several target types: decoding into another type first must not matter
+	if fail == "" {
+		multi := types.VerifNewDecoder()
+		other := types17[r.Intn(len(types17))]
+		if r.Intn(2) == 0 {
+			other = types17[r.Intn(2)] // one of the twins
+		}
+		if od, err := multi.Compile(reflect.PointerTo(other)); err == nil {
+			for _, vi := range seq {
+				decodeOnce(od, other, vals[vi], &intern17{ids: map[string]int{}}, &intern17{ids: map[string]int{}})
+			}
+		}
+		if md, err := multi.Compile(reflect.PointerTo(typ)); err == nil {
+			for vi, f := range first {
+				o, _ := decodeOnce(md, typ, vals[vi], &intern17{ids: map[string]int{}}, &intern17{ids: map[string]int{}})
+				if o.text != f.text && fail == "" {
+					fail = fmt.Sprintf("decoding value %d into %s gives %s after the decoder was used for %s, %s on its own", vi, typ, o.text, other, f.text)
+				}
+			}
 		}
 	}
 	if r.Intn(4) == 0 && fail == "" {
